@@ -17,7 +17,7 @@ def run(idx, rep, tier):
     unitdir.r_unitdir(idx, rep)
     mink.r_par(idx, rep)
     mink.r_mink(idx, rep, modules=["distance3d.mpr", "distance3d.minkowski"], floor=8)
-    loops.r_loop(idx, rep, ["distance3d.mpr"], floor=3)
+    loops.r_loop(idx, rep, ["distance3d.mpr"], floor=2)
     ericson.r_ericson(idx, rep)
     misc2.r_dupcond(idx, rep, [m.name for m in idx.lib_modules()], floor=3)
     unitdir.r_portaldir(idx, rep)
